@@ -178,4 +178,19 @@ theorem C10_roundtrip_bundled (H : Bytes → Bytes) (hH : ∀ x, (H x).length = 
   injection h5 with h5
   exact ⟨idx, h1, h4', by rw [h5]; exact h6⟩
 
+/-- **Encoding is injective**: two entropies (lengths multiples of 4, any hash long enough) that encode
+    to the same sentence over a duplicate-free 2048-word list are equal — no two seeds share a mnemonic. -/
+theorem C10_encode_injective (H : Bytes → Bytes) (e1 e2 : Bytes) (wl : List Bytes)
+    (hwl : wl.length = 2048) (hn : wl.Nodup) (h41 : e1.length % 4 = 0) (h42 : e2.length % 4 = 0)
+    (hH1 : ∀ x, e1.length / 4 ≤ 8 * (H x).length) (hH2 : ∀ x, e2.length / 4 ≤ 8 * (H x).length)
+    (ws : List Bytes) (h1 : mnemonicEncode H e1 wl = .ok ws) (h2 : mnemonicEncode H e2 wl = .ok ws) :
+    e1 = e2 := by
+  obtain ⟨w1, a1, b1⟩ := C10_decode_encode H e1 wl hwl hn h41 hH1
+  obtain ⟨w2, a2, b2⟩ := C10_decode_encode H e2 wl hwl hn h42 hH2
+  rw [h1] at a1; rw [h2] at a2
+  injection a1 with a1; injection a2 with a2
+  subst a1; subst a2
+  rw [b1] at b2
+  injection b2
+
 end CG.Props.C10
